@@ -8,7 +8,7 @@ from .. import dagsweep as D
 from .. import sweepprops as S
 
 LEVEL = 'proof'
-NEEDS = ['PyRt', 'IdentifyGenLemmas', 'IdentifyGenConf', 'IdentifyGenMB', 'IdentifyGenMBProofs', 'SFIdentify', 'Extracted', 'SourceFacts', 'Bridge', 'BridgeProofs', 'Base', 'Digraph', 'DSep', 'DSepProofs', 'Markov', 'MarkovProofs', 'CorrDag']
+NEEDS = ['CorrIdentifyGen', 'CorrIdentifyGenMB', 'PyRt', 'IdentifyGenLemmas', 'IdentifyGenConf', 'IdentifyGenMB', 'IdentifyGenMBProofs', 'SFIdentify', 'Extracted', 'SourceFacts', 'Bridge', 'BridgeProofs', 'Base', 'Digraph', 'DSep', 'DSepProofs', 'Markov', 'MarkovProofs', 'CorrDag']
 TYPES = ['->', '<>', '--']
 
 
@@ -36,6 +36,8 @@ def declarative_colliders(n, mg, unshielded):
 
 
 def check(run, tier, seed):
+    from .. import gencorr
+    gencorr.gen_correspondence(run, 'C20', tier, seed)
     S.sweep_property(run, tier, seed, 'C20',
                      describe='identify_markov_boundary for every node (and for the Skeleton: the neighbours); the shielding and minimality '
                               'criteria are evaluated by the Coq d-separation checker on the set the implementation returned.')
